@@ -23,7 +23,8 @@ class SplitReal(R.Real):
 def run(tier, seed):
     chk = CheckRun('C14', tier, seed)
     th = tier == 'thorough'
-    fams = [('split', fam.fam_split(thorough=th), ('h',)), ('split_discount', fam.fam_split_discount(), ('h', 'd')), ('split_single_interval', fam.fam_split_single(), ('h',))]
+    fams = [('split', fam.fam_split(thorough=th), ('h',)), ('split_discount', fam.fam_split_discount(), ('h', 'd')), ('split_single_interval', fam.fam_split_single(), ('h',)),
+            ('split_unaligned', fam.fam_split_unaligned(), ('h',))]
     if th:
         fams.append(('split_mtu', [c for c in fam.fam_split() if c['coupling'] in ('none', 'takes')], ('d', 'min')))
     for tag, cfgs, mtus in fams:
